@@ -44,6 +44,10 @@ Subset (everything else raises Untranslatable):
     Bool parameter, calls of translated (state) methods incl. `super().__init__`, closures defined inside a method, one
     iteration of a loop as a function (dict records), Python lists / 1-D arrays as `List α` with list-valued externals, loops
     over lists of abstract objects with `continue`, effect logs, TypeErrors inside loops (`Option` state).
+  * `dialect='dyn'` (harness/translate_dyn.py, read its docstring): DYNAMICALLY TYPED Python for the glue code (input-file
+    typing, class factories, output writer / loader): every value is a `Dyn.Val` (lean/TaurexModel/Gen/DynPrelude.lean),
+    `isinstance`, `try/except`, dict / list / str operations, early `return` / `break` / `continue`, closures, fuel for
+    recursion; one oracle parameter `ext` for everything Python delegates to objects, polymorphic in the monad.
 The translator is part of the trusted base; it is validated on every run by the tie theorems (the regenerated text must be
 *provably equal* to a model that the correspondence check runs against the real code on the same inputs)."""
 import ast
@@ -902,7 +906,10 @@ def translate_file(repo_root, specs, namespace, out_path, header=''):
                                                             **getattr(fn, 'known_extra', {}))
             funcs.append(dict(module=spec['module'], func=spec['func'], line=fn.lineno,
                               sha=hashlib.sha256(fn.src.encode()).hexdigest()[:16],
-                              extra_params=[n for n, _ in fn.extra_params], float_consts=fn.float_consts))
+                              extra_params=[n for n, _ in fn.extra_params], float_consts=fn.float_consts,
+                              lean=spec.get('lean', spec['func']),
+                              # literal parameters as they appear in the generated signature (named after their value)
+                              literal_params=sorted(set(re.findall(r'\((c\d\w*) : α\)', lean.split(':=')[0])))))
         except (Untranslatable, SyntaxError, OSError) as e:
             errors.append('%s:%s: %s' % (spec['module'], spec['func'], e))
             # keep the file compiling: the missing definition makes the tie theorem fail, which is the signal
